@@ -205,3 +205,7 @@ mod tests {
         assert_eq!(out, [0xF5, 4, 0, 8, 0, 0, 0, 0]);
     }
 }
+
+#[cfg(all(test, pendulum_project_ntpd_rs_verif))]
+#[path = "/verif/harness/ntp-proto/hook_packet__v5__extension_fields.rs"]
+mod verif_hook;
